@@ -109,3 +109,15 @@ theorem fibre_index (len inner o k i : Nat) (hk : k < len) (hi : i < inner) :
   · rw [h1, Nat.add_comm, Nat.add_mul_mod_self_right, Nat.mod_eq_of_lt hk]
 
 end OdlModel.Fourier
+
+namespace OdlModel.Fourier
+/-- exchange of the two sums in `⟨F x, y⟩` -/
+theorem adj_core {K : Type} [Field K] (n : Nat) (v : K) (x sy : Nat → K) :
+    ∑ k ∈ Finset.range n, (∑ j ∈ Finset.range n, x j * v ^ (j * k)) * sy k
+      = ∑ j ∈ Finset.range n, x j * ∑ k ∈ Finset.range n, sy k * v ^ (k * j) := by
+  simp only [Finset.sum_mul, Finset.mul_sum]
+  rw [Finset.sum_comm]
+  apply Finset.sum_congr rfl; intro j _
+  apply Finset.sum_congr rfl; intro k _
+  rw [Nat.mul_comm k j]; ring
+end OdlModel.Fourier
